@@ -119,6 +119,7 @@ func checkC19(c *Ctx, r *Report) {
 	r.OK("C19.a", "WHO-MAY-CALL", "repo/file-creating-call-sites", "-", fmt.Sprintf("%d functions contain file-creating calls: the generator entry points and Graph.SaveGraph only", len(perFunc)))
 
 	st := c.GetStaged()
+	stagedErrors(r, "C19", st)
 	for _, e := range entries {
 		c19Entry(c, r, e, st)
 	}
